@@ -456,3 +456,12 @@ Proof.
   - intros a H. destruct (idp_start_gated _ _ _ _ _ H) as [_ [_ [_ [b [Hb [_ Hs]]]]]]. exists b.
     split; [exact Hb|]. split; [exact Hs|]. exact (signature_from_proxy _ _ _ _ _ _ Hs Hi).
 Qed.
+
+(* no backslash anywhere in the authority of an accepted URI (WHATWG readers treat it as a slash) *)
+Theorem accepted_no_backslash uri cfg sch ui h port rest :
+  valid_redirect_uri uri (norm_domains cfg) = true -> rfc_split uri sch ui h port rest ->
+  ~ In c_bslash (opt_userinfo ui ++ h ++ opt_port port).
+Proof.
+  intros Hv Hs. destruct (valid_redirect_parsed uri cfg Hv) as [u [Hp [_ [Hh _]]]].
+  exact (accepted_authority_no_backslash uri u sch ui h port rest Hp Hh Hs).
+Qed.
